@@ -598,6 +598,46 @@ def reference(P, n_iter, params, data, param_data, obs_data, opt_state, warmup, 
 
 
 # ---------------------------------------------------------------------------
+# conditioning probe
+
+
+def ill_conditioned(P, n_iter, params, data, param_data, obs_data, opt_state, warmup, R, observed=None, scale=1.0):
+    """Could rounding alone explain a numeric mismatch between solve() and the
+    reference?  The same reference loop is run again from parameters perturbed
+    by a few ulp (relative +-1e-15, 2e-15 in float64): differences of that size
+    are what two correct executions of the same loop (compiled as one
+    while_loop, or step by step) legitimately differ by.  The run is set aside
+    as ill-conditioned when the perturbed references disagree with the
+    reference by more than the comparison tolerance, or when that spread is at
+    least a tenth of the observed discrepancy `observed = (params, loss)`
+    (exploding / chaotic trainings amplify 1e-16 to 1e-8 within a few
+    iterations).  A genuine slip (other batch, other slot, stale parameters)
+    differs by orders of magnitude more than the spread and is still reported."""
+    base = 1e-15 if jax.config.jax_enable_x64 else 1e-6
+    a = np.array([float(x) for x in R.loss])
+    spread_p, spread_l = 0.0, 0.0
+    for eps in (base, -base, 2 * base):
+        p2 = jax.tree_util.tree_map(lambda x: x * (1.0 + eps) if jnp.issubdtype(jnp.asarray(x).dtype, jnp.floating) else x, params)
+        R2 = reference(P, n_iter, p2, data, param_data, obs_data, opt_state, warmup)
+        if R2.n_run != R.n_run:
+            return True
+        b = np.array([float(x) for x in R2.loss])
+        if not close(a, b, scale) or not tree_close(R.final_params, R2.final_params, scale):
+            return True
+        d = np.abs(a - b)
+        d = d[~np.isnan(d)]
+        spread_l = max(spread_l, float(d.max()) if d.size else 0.0)
+        spread_p = max(spread_p, maxdiff(R.final_params, R2.final_params))
+    if observed is not None:
+        obs_p, obs_l = observed
+        if obs_p and spread_p >= 0.1 * obs_p:
+            return True
+        if obs_l and spread_l >= 0.1 * obs_l:
+            return True
+    return False
+
+
+# ---------------------------------------------------------------------------
 # comparison helpers
 
 
